@@ -18,7 +18,8 @@ RULE = ("A pool of ~35 complete compile-and-match operations chosen so that ever
         "class) of each operation executed FIRST in a fresh interpreter (one subprocess per operation). Histories: every "
         "ordered pair (predecessor -> successor) incl. immediate repeats is executed in-process at least once (quick); random "
         "walks of 20-60 operations sampling ordered triples (thorough); each in-history result is compared with the fresh "
-        "table. Diagnostic hook H4: the singleton's four entries are compared with a pure function of the current rule's config "
+        "table; 40% of the in-history executions go through file names shared by all operations (content rewritten before use), "
+        "so state cached by path is exposed. Diagnostic hook H4: the singleton's four entries are compared with a pure function of the current rule's config "
         "after every operation (reported in the witness only). Non-trivial/distinct = distinct ordered (predecessor, successor) "
         "pairs observed in histories.")
 FLOOR = {"quick": 800, "thorough": 1000}
@@ -113,9 +114,15 @@ def materialise(ws, ops):
     return out
 
 
-def run_op(mat):
+def run_op(mat, twice=False):
     rp, mf, inp, binary, (ret, search, oa) = mat
-    r = real.match(rp, inp, binary=binary, ret=ret, search=search, only_addr=oa, macros=mf)
+    if twice:
+        # "repeating an operation gives the same result": the same matcher object asked twice
+        r = real.match_twice(rp, inp, binary=binary, ret=ret, search=search, only_addr=oa, macros=mf)
+        if r[0] == "ok" and r[1] != r[2]:
+            return ["ok", {"first_call": r[1], "second_call_on_same_object": r[2]}]
+    else:
+        r = real.match(rp, inp, binary=binary, ret=ret, search=search, only_addr=oa, macros=mf)
     return ["ok", r[1]] if r[0] == "ok" else ["exc", r[1]]
 
 
@@ -176,13 +183,28 @@ def fresh_table(ctx, ws, ops, mats):
     return out
 
 
-def run_history(ctx, ops, mats, fresh, seq, label):
+def shared_paths(ws, op, mat):
+    """The same operation, but through file names shared by all operations (content rewritten before each use),
+    so that anything cached by path across operations becomes visible."""
+    import shutil
+    rp = ws.write("shared_rule.yaml", op["rule"])
+    mf = [ws.write(f"shared_m{j}.yaml", m) for j, m in enumerate(op["macros"])] or None
+    inp = ws.path("shared_input")
+    shutil.copyfile(mat[2], inp)
+    return (rp, mf, inp, mat[3], mat[4])
+
+
+def run_history(ctx, ops, mats, fresh, seq, label, ws=None):
     prev = None
     for pos, i in enumerate(seq):
         if fresh[i] is None:
             prev = i
             continue
-        r = run_op(mats[i])
+        if ws is not None and ctx.rng.random() < 0.4:
+            ctx.event("ops_through_shared_paths")
+            r = run_op(shared_paths(ws, ops[i], mats[i]))
+        else:
+            r = run_op(mats[i], twice=ctx.rng.random() < 0.25)
         ctx.ran()
         leak = cfg_mismatch(expected_cfg(ops[i]["rule"]), actual_cfg()) if r[0] == "ok" else None
         if leak:
@@ -217,14 +239,14 @@ def run_shard(ctx):
     if ctx.tier == "quick" or ctx.shard < 4:
         seq = [x for ab in mine for x in ab]
         for k in range(0, len(seq), 120):
-            run_history(ctx, ops, mats, fresh, seq[k:k + 120], "ordered-pairs")
+            run_history(ctx, ops, mats, fresh, seq[k:k + 120], "ordered-pairs", ws)
     if ctx.tier == "thorough":
         for _ in range(ctx.share(0, 1600)):
             ln = rng.randint(20, 60)
             seq = []
             for _ in range(ln):
                 seq.append(seq[-1] if seq and rng.random() < 0.1 else rng.randrange(n))
-            run_history(ctx, ops, mats, fresh, seq, "random-walk")
+            run_history(ctx, ops, mats, fresh, seq, "random-walk", ws)
     ctx.sample("history", {"first_ops": [ops[i]["name"] for i in ([x for ab in mine[:6] for x in ab])]})
 
 
